@@ -202,8 +202,41 @@ def r3_no_partial_consumption(chk):
                                 ok = True
                     if ok:
                         r.ok(cfg, key, where(body, c.blk), "dominated by `src.len() - header_len >= size`")
+                        continue
+                    # accepted alternative (the tokio codec's idiom): consume the header, then record ReadBody state on
+                    # every path before returning
+                    stores = set(b for b, i, st in body.statements() if st["k"] == "assign" and st["p"]["pr"] and st["p"]["pr"][-1][0] == "field" and st["p"]["pr"][-1][2] == "state")
+                    reach = body.reachable([c.target] if c.target is not None else [], avoid_blocks=stores)
+                    leaks = [b for b in reach if body.term(b)["k"] == "return" and not any(st["k"] == "assign" and st["r"]["k"] == "agg" and st["r"].get("variant") == "Err" for x in (body.bwd_reachable([b]) & reach) for st in body.blocks[x]["st"])]
+                    if stores and not leaks:
+                        r.ok(cfg, key, where(body, c.blk), "header consumed early, ReadBody state recorded before returning (codec idiom)")
                     else:
-                        r.bad(cfg, key, where(body, c.blk), "`%s` consumes bytes of the shared accumulator before the whole frame is known to be present: a header cut from its body desynchronises the stream" % c.name)
+                        r.bad(cfg, key, where(body, c.blk), "`%s` consumes bytes of the shared accumulator before the whole frame is known to be present and without recording the decoder state: a header cut from its body desynchronises the stream" % c.name)
+                # R3b: once a resumable ReadBody state exists, no length-based early `Ok(None)` may sit before the state dispatch
+                sets_body_state = any(st["p"]["pr"] and st["p"]["pr"][-1][0] == "field" and st["p"]["pr"][-1][2] == "state" and body.value_origin(st["r"]["o"])[0] == "agg" and body.value_origin(st["r"]["o"])[1]["r"].get("variant") == "ReadBody"
+                                      for b, i, st in body.statements() if st["k"] == "assign" and st["r"]["k"] == "use")
+                disp = [sw for sw in range(body.n) if body.term(sw)["k"] == "switch" and body.cond_atom(body.term(sw)["d"])[0][0] == "discr" and body.cond_atom(body.term(sw)["d"])[0][1].endswith(".state")]
+                key = "%s|no length test before the state dispatch" % short(body.path)
+                if sets_body_state and disp:
+                    early = []
+                    for g_s in range(body.n):
+                        t = body.term(g_s)
+                        if t["k"] != "switch" or not body.dominates(g_s, disp[0]) or g_s == disp[0]:
+                            continue
+                        a, _ = body.cond_atom(t["d"])
+                        pv = ""
+                        if a[0] == "cmp":
+                            pv = body.provenance(a[2]) + body.provenance(a[3])
+                        elif a[0] == "call":
+                            pv = a[1].callee + "(" + (a[1].recv() or "") + ")"
+                        if re.search(r"::(len|is_empty|remaining)\(src\)", pv):
+                            early.append(g_s)
+                    if early:
+                        r.bad(cfg, key, where(body, early[0]), "a length test on the input buffer runs before the decoder looks at its state, while the decoder can be waiting in ReadBody: a body shorter than that test's bound (1-byte or empty payload after a split header) is withheld forever")
+                    else:
+                        r.ok(cfg, key, where(body, disp[0]))
+                else:
+                    r.ok(cfg, key, where(body, disp[0] if disp else 0), "the decoder never parks in ReadBody (stateless header path)")
             if body.impl_trait and body.impl_trait.endswith("codec::Decoder") and body.name == "decode" and "zmtp::codec" in body.path:
                 # header consumed -> state stored before any `return Ok(None)`
                 hdr = [c for c in body.calls if c.name == "split_to" and any(g.atom[0] == "discr" and g.atom[1].endswith(".decoding_state") and g.is_value(0) for g in body.guards(c.blk, select_aware=False))]
